@@ -110,8 +110,14 @@ a("ceil", 9, lambda x: int(math.ceil(x)))
 a("floor", 9, lambda x: int(math.floor(x)))
 a("trunc", 9, int, 1)
 
-a("e", 11, lambda x, y: x * 10**y)
-a("E", 11, lambda x, y: x * 10**y)
+def _e_notation(x, y):
+    # an exact big-integer power is only computed for small exponents: a number written
+    # in the wikitext must not buy unbounded work; larger ones overflow as floats
+    return x * 10**y if abs(y) <= 400 else x * math.pow(10, y)
+
+
+a("e", 11, _e_notation)
+a("E", 11, _e_notation)
 
 a("*", 8, lambda x, y: x * y)
 a("/", 8, lambda x, y: x / y)
